@@ -1,6 +1,7 @@
 package props
 
 import (
+	"unicode/utf8"
 	"bytes"
 	"encoding/json"
 	"fmt"
@@ -25,6 +26,9 @@ import (
 type C03Case struct {
 	Value      ref.Value       `json:"value"`
 	Carrier    string          `json:"carrier"`
+	// Source: where the printing side gets the value from: 0 the template's data, 1 a compile-time global
+	// (AddGlobalsMap), 2 a string literal in the template, 3 a {let} of that literal (strings only)
+	Source int `json:"source,omitempty"`
 	NsMode     string          `json:"ns_mode"`
 	TmplMode   string          `json:"tmpl_mode"`
 	CalleeNs   string          `json:"callee_ns_mode"`
@@ -55,9 +59,23 @@ func txt(s string) ref.Cmd    { return ref.Cmd{K: "text", Text: s} }
 
 // buildC03 constructs the bundle for a case and says which template prints the value.
 func buildC03(c C03Case) (pc gen.ProgCase, printerNs, printerTmpl string) {
-	under := ref.Cmd{K: "print", Expr: varE("x"), Directives: c.Chain}
+	// xe: the value as the caller's side writes it
+	xe := varE("x")
+	src := c.Source
+	if c.Value.K != ref.String || c.Carrier == "call-all" || src >= 2 && !utf8.ValidString(c.Value.S) {
+		src = 0 // (a source file holds text; a global given through the API holds any bytes)
+	}
+	switch src {
+	case 1:
+		xe = &ref.Expr{Op: "global", Name: "app.VAL"}
+	case 2:
+		xe = &ref.Expr{Op: "str", S: c.Value.S}
+	case 3:
+		xe = varE("lv")
+	}
+	under := ref.Cmd{K: "print", Expr: xe, Directives: c.Chain}
 	show := ref.Template{Name: "show", Params: []ref.ParamDecl{{Name: "x"}}, Autoescape: c.CalleeMode, Header: c.Header,
-		Body: []ref.Cmd{txt(s1), under, txt(s2)}}
+		Body: []ref.Cmd{txt(s1), {K: "print", Expr: varE("x"), Directives: c.Chain}, txt(s2)}}
 	if c.Carrier == "after-call" || c.Carrier == "loop-around-call" {
 		// the frame under test is the caller's; the callee prints without sentinels
 		show.Body = []ref.Cmd{txt("(callee:"), {K: "print", Expr: varE("x")}, txt(")")}
@@ -87,16 +105,16 @@ func buildC03(c C03Case) (pc gen.ProgCase, printerNs, printerTmpl string) {
 	case "letc-bare":
 		main.Body = []ref.Cmd{{K: "letc", Var: "c", Body: []ref.Cmd{under}}, txt(s1), {K: "print", Expr: varE("c"), Directives: []ref.Directive{{Name: "noAutoescape"}}}, txt(s2)}
 	case "call-value":
-		main.Body = []ref.Cmd{txt("a"), {K: "call", Call: &ref.Call{Target: "b.lib.show", Style: 1, Params: []ref.Param{{Key: "x", Value: varE("x")}}}}}
+		main.Body = []ref.Cmd{txt("a"), {K: "call", Call: &ref.Call{Target: "b.lib.show", Style: 1, Params: []ref.Param{{Key: "x", Value: xe}}}}}
 		printerNs, printerTmpl = c.CalleeNs, c.CalleeMode
 	case "call-all":
 		main.Body = []ref.Cmd{{K: "call", Call: &ref.Call{Target: "b.lib.show", Style: 1, DataAll: true}}}
 		printerNs, printerTmpl = c.CalleeNs, c.CalleeMode
 	case "data-map":
-		main.Body = []ref.Cmd{{K: "call", Call: &ref.Call{Target: "b.lib.show", Style: 1, Data: &ref.Expr{Op: "map", Keys: []string{"x"}, Args: []*ref.Expr{varE("x")}}}}}
+		main.Body = []ref.Cmd{{K: "call", Call: &ref.Call{Target: "b.lib.show", Style: 1, Data: &ref.Expr{Op: "map", Keys: []string{"x"}, Args: []*ref.Expr{xe}}}}}
 		printerNs, printerTmpl = c.CalleeNs, c.CalleeMode
 	case "call-deep":
-		main.Body = []ref.Cmd{{K: "call", Call: &ref.Call{Target: "a.mid", Style: 0, Params: []ref.Param{{Key: "x", Value: varE("x")}}}}}
+		main.Body = []ref.Cmd{{K: "call", Call: &ref.Call{Target: "a.mid", Style: 0, Params: []ref.Param{{Key: "x", Value: xe}}}}}
 		printerNs, printerTmpl = c.CalleeNs, c.CalleeMode
 	case "after-call":
 		// the caller prints after a call to a template with its own mode has returned
@@ -108,13 +126,23 @@ func buildC03(c C03Case) (pc gen.ProgCase, printerNs, printerTmpl string) {
 		body := []ref.Cmd{txt("Hi " + s1), under, txt(s2 + " there")}
 		if c.Decoy > 0 {
 			dd := []ref.Directive{{Name: []string{"noAutoescape", "id"}[c.Decoy-1]}}
-			body = append([]ref.Cmd{txt("raw: "), {K: "print", Expr: varE("x"), Directives: dd}, txt(" ")}, body...)
+			body = append([]ref.Cmd{txt("raw: "), {K: "print", Expr: xe, Directives: dd}, txt(" ")}, body...)
 		}
 		main.Body = []ref.Cmd{{K: "msg", Desc: "m", Body: body}}
 	default:
 		panic("carrier " + c.Carrier)
 	}
-	p := ref.Program{Files: []ref.File{
+	var globals map[string]ref.Value
+	switch src {
+	case 1:
+		main.Params, globals = nil, map[string]ref.Value{"app.VAL": c.Value}
+	case 2:
+		main.Params = nil
+	case 3:
+		main.Params = nil
+		main.Body = append([]ref.Cmd{{K: "let", Var: "lv", Expr: &ref.Expr{Op: "str", S: c.Value.S}}}, main.Body...)
+	}
+	p := ref.Program{Globals: globals, Files: []ref.File{
 		{Name: "a.soy", Namespace: "a", Autoescape: c.NsMode, Templates: []ref.Template{main, mid}},
 		{Name: "b.soy", Namespace: "b.lib", Autoescape: c.CalleeNs, Templates: []ref.Template{show, echo, frame}},
 	}}
@@ -194,7 +222,7 @@ func checkC03(c C03Case) Verdict {
 		rr  renderResult
 	)
 	if !finishes(watchdogLimit(), func() {
-		cb, err, pn = compileBundle(names, srcs, nil)
+		cb, err, pn = compileBundle(names, srcs, pc.Prog.Globals)
 		if err == nil && pn == nil && !c.Bundle {
 			rr = cb.render(pc.Entry, pc.Data, nil, false)
 		}
@@ -371,6 +399,7 @@ func genC03(t *rapid.T) C03Case {
 		Split:      rapid.SampledFrom([]int{0, 0, 0, 1, 2, 3, 4}).Draw(t, "split"),
 		Bundle:     rapid.IntRange(0, 3).Draw(t, "bundle") == 0,
 		Decoy:      rapid.SampledFrom([]int{0, 0, 1, 2}).Draw(t, "decoy"),
+		Source:     rapid.SampledFrom([]int{0, 0, 0, 1, 1, 2, 3}).Draw(t, "source"),
 	}
 	n := rapid.SampledFrom([]int{0, 0, 1, 1, 2, 3}).Draw(t, "chainLen")
 	for i := 0; i < n; i++ {
@@ -419,13 +448,13 @@ func c03Exhaustive(t *testing.T, rec func(c C03Case, v Verdict) bool) (n int) {
 	chains := [][]ref.Directive{nil, {{Name: "escapeHtml"}}, {{Name: "noAutoescape"}}, {{Name: "insertWordBreaks", Args: []*ref.Expr{intE(2)}}}, {{Name: "changeNewlineToBr"}}}
 	modes := [][2]string{{"", ""}, {"false", ""}, {"false", "contextual"}, {"true", "false"}}
 	for _, val := range values {
-		for _, car := range c03Carriers {
+		for cari, car := range c03Carriers {
 			for mi, m := range modes {
 				for ci, ch := range chains {
 					if !thorough() && (mi+ci+len(val))%3 != 0 {
 						continue // quick tier: a deterministic third of the grid
 					}
-					c := C03Case{Value: ref.S(val), Carrier: car, NsMode: m[0], TmplMode: m[1], CalleeNs: m[0], CalleeMode: m[1], Chain: ch}
+					c := C03Case{Value: ref.S(val), Carrier: car, NsMode: m[0], TmplMode: m[1], CalleeNs: m[0], CalleeMode: m[1], Chain: ch, Source: (mi*5 + ci + cari + len(val) + int(val[0])) % 4}
 					n++
 					histLog(c)
 					if !rec(c, checkC03(c)) {
